@@ -130,13 +130,22 @@ def run_family(ck, prop, scen_names, clause_tags, nsim, nedges):
     for g in gens:
         ck.cov["states"] += g["states"]
         ck.cov["transitions"] += g["trans"]
-        for h in g["scheds"]:
+        hs = g["scheds"]
+        if not ck.quick() and len(hs) > 2500:
+            # the thorough tier replays at most 2500 generated schedules per scenario (a seeded sample): the first
+            # full run, with everything, did not get through the single-threaded replay in 50 minutes
+            rnd = random.Random(ck.seed * 104729 + len(g["name"]))
+            hs = list(hs)
+            rnd.shuffle(hs)
+            hs = hs[:2500]
+        g["replayed"] = len(hs)
+        for h in hs:
             lines.append({"scenario": g["name"], "sched": h, "kind": "gen"})
         for why, h in g["danger"]:
             lines.append({"scenario": g["name"], "sched": h, "kind": "danger:" + why})
         if not g["model_ok"]:
             ck.notes.append("model of the current code violates %s in scenario %s (replayed on the real code below)" % (g["model_violated"], g["name"]))
-    ck.cov["scenarios"] = {g["name"]: {"states": g["states"], "schedules": len(g["scheds"]), "edges_total": g.get("edges_total", 0), "edge_classes": g.get("edge_classes", 0), "dangerous": [w for w, _ in g["danger"]],
+    ck.cov["scenarios"] = {g["name"]: {"states": g["states"], "schedules": len(g["scheds"]), "schedules_replayed": g.get("replayed", len(g["scheds"])), "edges_total": g.get("edges_total", 0), "edge_classes": g.get("edge_classes", 0), "dangerous": [w for w, _ in g["danger"]],
                                         "negative_controls": g["neg"], "model_ok": g["model_ok"]} for g in gens}
     if not lines:
         raise Infra("no schedules generated")
